@@ -10,13 +10,16 @@ CONST_SETS = [
     [('b.a.K', True), ('a.K', True)],          # interactive mode: a name that is a suffix of an older one
     [('a.K', True), ('b.a.K', True), ('K', True)],
     [('x.y.Z', False), ('y.Z', True), ('Z', True), ('w.Z', False)],
+    [('t.MUST_REQ', False), ('u.K', False)],       # a user constant whose VALUE is the REQUIRED sentinel
+    [('gin.REQUIRED', True), ('t.K', False)],      # gin.REQUIRED itself overwritten in interactive mode
 ]
+NCS = len(CONST_SETS)
 
 
 def c20_step(b: bool, imp: bool, op: bool, fin: bool, sing: bool, failp: bool, failb: bool,
              consts: int, clear_constants: bool, v0: int, v1: int) -> bool:
   """
-  pre: 0 <= consts < 5
+  pre: 0 <= consts < 7
   """
   world.fresh()
   with rt.native():
@@ -24,13 +27,13 @@ def c20_step(b: bool, imp: bool, op: bool, fin: bool, sing: bool, failp: bool, f
     base_op = gin.operative_config_str()
   b, imp, op, fin = rt.flag(b), rt.flag(imp), rt.flag(op), rt.flag(fin)
   sing, failp, failb = rt.flag(sing), rt.flag(failp), rt.flag(failb)
-  consts = rt.pick(consts, 5)
+  consts = rt.pick(consts, NCS)
   clear_constants = rt.flag(clear_constants)
   rt.sig(('clear', b, imp, op, fin, sing, failp, failb, consts, clear_constants),
          nontrivial=b or imp or op or fin or sing or consts > 0)
   defined = {}
   for name, interactive in CONST_SETS[consts]:
-    obj = object()
+    obj = gin.REQUIRED if name.endswith('_REQ') else object()
     if interactive:
       with gin.config.interactive_mode():
         gin.constant(name, obj)
@@ -95,9 +98,12 @@ def c20_step(b: bool, imp: bool, op: bool, fin: bool, sing: bool, failp: bool, f
   if gin.config.singleton_value('key', lambda: second) is not second:
     return False
   # constants
-  if gin.query_parameter('gin.REQUIRED') is not gin.REQUIRED:
-    return False
+  if clear_constants or 'gin.REQUIRED' not in defined:
+    if gin.query_parameter('gin.REQUIRED') is not gin.REQUIRED:
+      return rt.no('gin.REQUIRED must be the sentinel')
   for name, obj in defined.items():
+    if name == 'gin.REQUIRED' and clear_constants:
+      continue
     try:
       got = gin.query_parameter(name)
       if clear_constants or got is not obj:
@@ -125,11 +131,11 @@ HARNESSES = {
                     clear_constants=False, v0=1, v1=2),
                dict(b=True, imp=False, op=False, fin=False, sing=False, failp=False, failb=False,
                     consts=4, clear_constants=True, v0=1, v1=2)],
-        tiers={'quick': dict(split=dict(consts=list(range(5)), b=[False, True], fin=[False, True]),
+        tiers={'quick': dict(split=dict(consts=list(range(7)), b=[False, True], fin=[False, True]),
                              budget_s=100),
-               'thorough': dict(split=dict(consts=list(range(5)), b=[False, True], fin=[False, True],
+               'thorough': dict(split=dict(consts=list(range(7)), b=[False, True], fin=[False, True],
                                            imp=[False, True]), budget_s=300)},
         bounds='pre-state = any combination of {bindings, parsed import + reference, operative record, '
-               'finalized, used singleton, failed parse, failed bind} x 5 constant sets (incl. interactive-mode '
-               'definitions whose names are suffixes of older ones) x clear_constants; bound values: all ints'),
+               'finalized, used singleton, failed parse, failed bind} x 7 constant sets (incl. interactive-mode '
+               'definitions whose names are suffixes of older ones, a constant whose value is the REQUIRED sentinel, gin.REQUIRED overwritten) x clear_constants; bound values: all ints'),
 }
